@@ -57,7 +57,16 @@ def corpus_worker(chunk, seed, tier):
             with warnings.catch_warnings():
                 warnings.simplefilter("ignore")
                 try:
-                    x0 = load_one(str(CORPUS / fn), fmt=infmt)
+                    if fn.startswith("generated:"):
+                        # an object in conventions / shell order other than the target's own: cycle 1 converts, later cycles must not
+                        from props import wfn
+
+                        _, conv, shellset, order = fn.split(":")
+                        wcase = {n: m[0] for n, m in wfn.SPACE}
+                        wcase.update(conventions=conv, shellset=shellset, shell_order=order)
+                        x0, _ = wfn.build(wcase, name, seed)
+                    else:
+                        x0 = load_one(str(CORPUS / fn), fmt=infmt)
                 except Exception:  # noqa: BLE001
                     continue
             if name == "json_qcschema" and "schema_name" not in x0.extra:
@@ -137,14 +146,25 @@ def run(ctx):
             continue
         for name in specs:
             chains.append((fn, infmt, name))
+    from props import wfn
+
+    ngen = 0
+    for conv in ("horton2", "wfn", "fchk", "molden", "cca", "scr1") if not ctx.thorough else dict(wfn.SPACE)["conventions"][1:]:
+        for shellset in ("+d-cart", "+f-cart", "+d-pure", "+g-cart", "+f-pure") if not ctx.thorough else dict(wfn.SPACE)["shellset"]:
+            for order in ("grouped", "interleaved") if not ctx.thorough else ("grouped", "interleaved", "reversed", "perm3"):
+                for name in wfn.TARGETS:
+                    chains.append((f"generated:{conv}:{shellset}:{order}", None, name))
+                    ngen += 1
     pmap(ctx, corpus_worker, chains, chunk=8)
-    ctx.cov["corpus_chains"] = len(chains)
+    ctx.cov["corpus_chains"] = len(chains) - ngen
+    ctx.cov["generated_conversion_chains"] = ngen
     ctx.cov.update(formats=sorted(specs), dbe_k=k, cases=len(js), axes={n: [a for a, _ in s.space] for n, s in specs.items()})
     ctx.exhaustive = True
     ctx.rule = (
         f"per format, deviation-bounded enumeration k<={k} (thorough: additionally the full product of all axes for every format whose space has <= {FULL_PRODUCT_LIMIT} points) over the format's axes (atom counts crossing every field width, element sets, coordinate ranges, titles, bonds, "
         "optional attributes, grid shapes/values, matrix sizes); each case: build object, dump_one, load_one, compare every attribute the format stores (exact / digits-aware); "
-        "violations are minimised to their smallest deviation set. Additionally every corpus file (<= 20 kB quick, all thorough) is converted to every format that accepts it and cycled three times. "
+        "violations are minimised to their smallest deviation set. Additionally every corpus file (<= 20 kB quick, all thorough) is converted to every format that accepts it and cycled three times, and so is a generated wavefunction in foreign conventions x shell set x shell order "
+        "(6 x 5 x 2 quick; 9 x 13 x 4 thorough) for each of the five wavefunction formats (cycle 1 converts conventions and regroups shells, cycles 2 and 3 must be the identity). "
         "Distinct = (format, deviation set) / (corpus file, format)."
     )
     ctx.assumptions += ["tolerances are 0.6 unit in the last digit the format prints (typed per format in props/fmtspecs.py)", "multi-line titles are outside the stated domain"]
